@@ -496,6 +496,21 @@ def r36(ctx):
             ctx.ok(rid, fr, "a worker frees only the engines it held itself (pin == occupied_by)")
         else:
             ctx.bad(rid, fr, "an engine is freed that is not held by the requesting worker")
+        # ... and it frees *all* of them: the release ranges over the whole occupation table, not over the requested types
+        outer = [l for l in loops_of(fr) if isinstance(l, ast.For)]
+        whole = False
+        partial = None
+        for l in outer:
+            it = l.iter
+            base = it.func.value if isinstance(it, ast.Call) and isinstance(it.func, ast.Attribute) and it.func.attr in ("keys", "values", "items") else it
+            if path_of(base) == occ:
+                whole = True
+            if isinstance(it, ast.Name) and it.id == params[1]:
+                partial = l
+        if whole:
+            ctx.ok(rid, fr, "the release ranges over every engine type of the occupation table")
+        elif partial is not None:
+            ctx.bad(rid, fr, f"a worker releases only the slots of the engine types its next job requests (`for {ast.unparse(partial.target)} in {params[1]}`): a slot of another type it still holds from its previous job stays booked - the next worker picked for that type finds no free engine (the job cannot be issued), or, with the claim taken from a loop variable after the search, the slot of a running job is handed out a second time", construct="assign_engines: release restricted to the requested engine types")
     # a job claims its engines in ONE call: every call first frees everything the pin holds
     ncalls = 0
     for m2, f2, call in all_calls(tree):
@@ -947,6 +962,7 @@ def run(ctx):
 
 
 VARIANTS = [
+    B("c03-engines-released-per-requested-type-only", FACTORY, "    for eng_key in engine_occ.keys():\n        for i, occupied_by in enumerate(engine_occ[eng_key]):\n            if pin == occupied_by:", "    for eng_key in eng_names:\n        for i, occupied_by in enumerate(engine_occ[eng_key]):\n            if pin == occupied_by:", "R-3.6", why="seeded C05_m / C03_m"),
     B("c03-record-in-pick-order", REPEX, "        pat_nums = [str(i.path_number) for i in inp_trajs]\n", "        pat_nums = [str(traj.path_number)]\n        if len(inp_trajs) > 1:\n            pat_nums.append(str(other_traj.path_number))\n", "R-3.17", control=True, why="seeded C03_l (= C08_j)"),
     B("c03-resort-invalidates-only-when-list-nonempty", REPEX, "            ]\n        self._last_prob = None\n        self.prob\n\n    def lock(self, ens):", "            ]\n        if True in needstomove:\n            self._last_prob = None\n        self.prob\n\n    def lock(self, ens):", "R-3.16", control=True, why="seeded C03_k"),
     B("c03-row-sort-reapplied", REPEX, "        out[sort_idx] = out.copy()", "        out = out[sort_idx]", "R-3.15", control=True, why="seeded C03_j"),
